@@ -1259,6 +1259,10 @@ func (w *World) Enabled(al *Alphabet) func(ctx sdk.Context, l *Ledger, depth int
 				}
 			case k.SF == sfPlain && !k.Unlocking:
 				ops = append(ops, Op{K: "del", P: i, V: 0}, Op{K: "del", P: i, V: 1}, Op{K: "beginunlock", P: i})
+			case k.SF == sfPlain && k.Unlocking:
+				// a lock that began unlocking through the plain lockup message is offered for delegation (in the same block:
+				// its remaining time still equals its duration): must be refused
+				ops = append(ops, Op{K: "del", P: i, V: 0})
 			}
 			if al.UCS && (k.D == 0 || (k.D == 1 && al.Probes)) {
 				// conversion to native stake, whatever the state of the lock (a concentrated lock must be refused)
